@@ -116,33 +116,83 @@ class CaseTimeout(BaseException):
     pass
 
 
-def _on_alarm(signum, frame):
-    raise CaseTimeout()
+def _repo_frame_of(frame):
+    """(file, function) of the innermost frame of the code under test on the stack, or None."""
+    from .core import REPO
+    f = frame
+    while f is not None:
+        fn = f.f_code.co_filename
+        if fn.startswith(REPO + os.sep):
+            return (os.path.relpath(fn, REPO), f.f_code.co_name)
+        f = f.f_back
+    return None
 
 
 def call_case(run, case):
-    """Run one case through the check's run_case and classify whatever comes out of it. A case
-    that does not come back within the watchdog (orders of magnitude above any case's cost) is a
-    violation when it is stuck inside the code under test, a harness error otherwise."""
+    """Run one case through the check's run_case and classify whatever comes out of it.
+
+    A case that does not come back is a violation when it is stuck inside the code under test,
+    a harness error otherwise. 'Does not come back' must not depend on how loaded the machine
+    is: a timer ticks every two seconds of wall-clock time and the case is given up when it has
+    used CASE_WATCHDOG_S seconds of CPU time (busy), or when CASE_WATCHDOG_S seconds have
+    passed and it has used no CPU time for the last twenty of them (blocked: asleep, waiting
+    for a peer that never answers), or after fifteen times the allowance in any event. A case
+    that computes on a starved machine keeps being served.
+
+    The code under test catches BaseException in places (hsm2dongle.py around every exchange),
+    so the time-out is raised again on every tick until it gets out, and the verdict is fixed
+    when the timer first fires - whatever the case returns after that is not believed."""
     import signal
     import threading
     use_alarm = hasattr(signal, "SIGALRM") and threading.current_thread() is \
         threading.main_thread()
-    if use_alarm:
-        signal.signal(signal.SIGALRM, _on_alarm)
-        signal.alarm(CASE_WATCHDOG_S)
-    try:
+    if not use_alarm:
         return _call_case(run, case)
-    except CaseTimeout as e:
-        fr = innermost_repo_frame(e)
-        if fr:
-            raise Violation("does-not-terminate@%s:%s" % fr, "no result after %d s" %
-                            CASE_WATCHDOG_S)
-        raise HarnessError("case did not finish within %d s (stuck outside the code under test)"
-                           % CASE_WATCHDOG_S)
+    st = {"fired": False, "frame": None, "cpu0": time.process_time(), "t0": time.monotonic(),
+          "quiet": 0.0}
+    st["last_cpu"], st["last_t"] = st["cpu0"], st["t0"]
+
+    def on_tick(signum, frame):
+        now, cpu = time.monotonic(), time.process_time()
+        signal.setitimer(signal.ITIMER_REAL, 0.2 if st["fired"] else 2.0)
+        if not st["fired"]:
+            if cpu - st["last_cpu"] < 0.02:
+                st["quiet"] += now - st["last_t"]
+            else:
+                st["quiet"] = 0.0
+            st["last_cpu"], st["last_t"] = cpu, now
+            wall = now - st["t0"]
+            if not (cpu - st["cpu0"] > CASE_WATCHDOG_S or
+                    (wall > CASE_WATCHDOG_S and st["quiet"] >= 20) or
+                    wall > 15 * CASE_WATCHDOG_S):
+                return
+            st["fired"] = True
+            st["frame"] = _repo_frame_of(frame)
+        raise CaseTimeout()
+    signal.signal(signal.SIGALRM, on_tick)
+    signal.setitimer(signal.ITIMER_REAL, 2.0)
+    out = exc = None
+    try:
+        try:
+            out = _call_case(run, case)
+        except CaseTimeout:
+            pass
+        except BaseException as e:   # noqa
+            exc = e
     finally:
-        if use_alarm:
-            signal.alarm(0)
+        signal.setitimer(signal.ITIMER_REAL, 0)
+        signal.signal(signal.SIGALRM, signal.SIG_DFL)
+    if st["fired"]:
+        if st["frame"]:
+            raise Violation("does-not-terminate@%s:%s" % st["frame"], "no result after %d s "
+                            "(CPU %.0f s)" % (time.monotonic() - st["t0"],
+                                              time.process_time() - st["cpu0"]))
+        raise HarnessError("case did not finish within its allowance (%d s wall, %.0f s CPU; "
+                           "stuck outside the code under test)" % (
+                               time.monotonic() - st["t0"], time.process_time() - st["cpu0"]))
+    if exc is not None:
+        raise exc
+    return out
 
 
 def _call_case(run, case):
